@@ -295,7 +295,7 @@ var int64Edges = []int64{0, 1, -1, 2, 7, 10, 100, 127, 128, -128, -129, 255, 256
 var uint64Edges = []uint64{0, 1, 2, 127, 128, 255, 256, 65535, 65536, 1<<32 - 1, 1 << 32, 1<<53 - 1, 1 << 53, 1<<53 + 1, 1<<63 - 1, 1 << 63, 1<<63 + 1, math.MaxUint64, math.MaxUint64 - 1, 1e19, 9999999999999999999}
 var floatEdges = []float64{2e19, 36893488147419103232, 99999999999999983616, 18446744073709551616, 18446744073709555712, 9223372036854775808, 1e19, 0, math.Copysign(0, -1), 1, -1, 0.1, 0.5, 1.5, 1e-7, 1e-6, 9.999999e-7, 1e21, 1e20, 999999999999999900000, 1e22, 1 << 53, 1<<53 + 2, math.MaxFloat64, -math.MaxFloat64, math.SmallestNonzeroFloat64, 2.2250738585072014e-308, math.MaxFloat32, math.SmallestNonzeroFloat32, 3.4028235677973366e38, 16777216, 16777217, 0.30000000000000004, 123456789.12345678, 1e-5, 123e-20, 5e-324, 4.35, 100, 1e15, 1e16, 1e17}
 var stringEdges = []string{"", "a", "abc", "hello world", "é", "日本語", "😀", "\x00", "\x1f", "\x7f", "\"", "\\", "/", "<>&", "  ", "\t\n\r\b\f", "null", "true", "0", "-1", "1e5", " ", "�", "\U0010ffff", "퟿", "key", "a\"b\\c", strings.Repeat("x", 70), strings.Repeat("é", 40)}
-var badStrings = []string{"\xff", "a\x80b", "\xc0\x80", "\xed\xa0\x80", "\xf4\x90\x80\x80", "\xe2\x82", "ok\xfe"}
+var badStrings = []string{"\xff", "a\x80b", "\xc0\x80", "\xed\xa0\x80", "\xf4\x90\x80\x80", "\xe2\x82", "ok\xfe", "caf\xc3(", "\xc2\"", "\xdf\\", "\xc3<", "\xe1\x80\"", "\xf0\x90\x80\\"}
 
 // GenVal draws a value for d.
 func GenVal(t *rapid.T, d *Desc, vc ValCfg) Val {
